@@ -26,7 +26,7 @@ from .libelefun import (\
     mpf_cos_sin_pi, mpf_phi,
     mpf_cos, mpf_sin, mpf_cos_pi, mpf_sin_pi,
     mpf_atan, mpf_atan2, mpf_cosh, mpf_sinh, mpf_tanh,
-    mpf_asin, mpf_acos, mpf_acosh, mpf_nthroot, mpf_fibonacci
+    mpf_asin, mpf_acos, mpf_acosh, mpf_asinh, mpf_nthroot, mpf_fibonacci
 )
 
 # An mpc value is a (real, imag) tuple
@@ -611,13 +611,33 @@ def mpc_tanh(z, prec, rnd=round_fast):
     b, a = mpc_tan((b, a), prec, rnd)
     return a, b
 
-# TODO: avoid loss of accuracy
+def _mag_if_small(z):
+    """exp+bc of the larger component of a finite nonzero z with
+    |z| < 2^-8, else None"""
+    mags = []
+    for sign, man, exp, bc in z:
+        if man:
+            mags.append(exp+bc)
+        elif exp:
+            return None
+    if mags and max(mags) < -8:
+        return max(mags)
+    return None
+
 def mpc_atan(z, prec, rnd=round_fast):
     a, b = z
     # atan(z) = (I/2)*(log(1-I*z) - log(1+I*z))
     # x = 1-I*z = 1 + b - I*a
     # y = 1+I*z = 1 - b + I*a
     wp = prec + 15
+    # For small z both logarithms are close to -+iz and their arguments
+    # close to 1: the sums 1+-b and the difference need -mag(z) more bits
+    mag = _mag_if_small(z)
+    if mag is not None:
+        if mag < -wp:
+            # atan(z) = z - z^3/3 + ...
+            return mpc_pos(z, prec, rnd)
+        wp += -mag
     x = mpf_add(fone, b, wp), mpf_neg(a)
     y = mpf_sub(fone, b, wp), a
     l1 = mpc_log(x, wp)
@@ -680,6 +700,13 @@ def acos_asin(z, prec, rnd, n):
                 else:
                     pi = mpf_pi(prec, rnd)
                     return mpf_shift(pi, -1), mpf_neg(c)
+    # special case with imaginary argument: asin(bi) = asinh(b)*i
+    if a == fzero:
+        if n == 0:
+            return mpf_shift(mpf_pi(prec, rnd), -1), \
+                mpf_neg(mpf_asinh(b, prec, negative_rnd[rnd]))
+        else:
+            return fzero, mpf_asinh(b, prec, rnd)
     asign = bsign = 0
     if a[0]:
         a = mpf_neg(a)
@@ -752,7 +779,14 @@ def acos_asin(z, prec, rnd, n):
             Am1 = mpf_shift(mpf_add(c1, c2, wp), -1)
         # im = log(1 + Am1 + sqrt(Am1*(alpha+1)))
         im = mpf_mul(Am1, mpf_add(alpha, fone, wp), wp)
-        im = mpf_log(mpf_add(fone, mpf_add(Am1, mpf_sqrt(im, wp), wp), wp), wp)
+        t = mpf_add(Am1, mpf_sqrt(im, wp), wp)
+        # log(1+t) for small t: the sum 1+t needs -mag(t) more bits
+        tmag = t[2] + t[3]
+        if t[1] and tmag < -wp:
+            im = t
+        else:
+            wp2 = wp + max(0, -tmag)
+            im = mpf_log(mpf_add(fone, t, wp2), wp2)
     else:
         # im = log(alpha + sqrt(alpha*alpha - 1))
         im = mpf_sqrt(mpf_sub(mpf_mul(alpha, alpha, wp), fone, wp), wp)
@@ -794,6 +828,14 @@ def mpc_acosh(z, prec, rnd=round_fast):
 def mpc_atanh(z, prec, rnd=round_fast):
     # atanh(z) = (log(1+z)-log(1-z))/2
     wp = prec + 15
+    # For small z the sums 1+-z and the difference of the two logarithms
+    # need -mag(z) more bits
+    mag = _mag_if_small(z)
+    if mag is not None:
+        if mag < -wp:
+            # atanh(z) = z + z^3/3 + ...
+            return mpc_pos(z, prec, rnd)
+        wp += -mag
     a = mpc_add(z, mpc_one, wp)
     b = mpc_sub(mpc_one, z, wp)
     a = mpc_log(a, wp)
